@@ -22,7 +22,25 @@ Round 4 — two more dimensions of the property's quantifier are generated, mode
    looks at the cell size: every output must be self-consistent (s x v x bytes-per-pixel,
    strip count, strips stitching to the pixels Pillow gives at the transmitted
    resolution); the model side replays the render plan on the recorded answers and
-   demands the plan's number of reads (geometry from a single read)."""
+   demands the plan's number of reads (geometry from a single read).
+
+Round 4 (b) — two more:
+ * WHICH FRAME: histories over animated sources (PIL-sourced: ONE PIL object shared by the
+   instance, its renders, its iterators and its owner; file-sourced: re-opened per render) made
+   of image.seek(n), pil.seek(k) by the owner, ImageIterators closed early or exhausted, iterm2
+   native-animation renders (Pillow's save(save_all) moves the object), the PIL image on any
+   frame when it is wrapped, and renders through str / format / _renderer for kitty LINES /
+   WHOLE and iterm2 LINES / WHOLE.  Every render of a history is judged: expected pixels =
+   frame image.tell() (read just before the render) of a fresh copy of the source at the
+   transmitted resolution (model/GfxFrames.v: [frames_ok_spec]; model side: the code's render
+   after that history, [frames_ok_model]).
+ * PAYLOAD SIZE and the payload as ONE base64 text: iterm2 WHOLE read-from-file of PNG files of
+   EXACTLY 2^16, 3*2^18, 2^20, 2^21 ... -1/+0/+1 bytes, native animation of APNG files of such
+   sizes and of a ~1.9 MB GIF, re-encoded PNGs above 1 and 2 MiB (incompressible noise), kitty
+   WHOLE transmissions above 1 MiB (hundreds of chunks).  Only lengths go to Coq (as Z): the
+   length of the text, the number of characters from the first '=' to the end, and whether it is
+   [alphabet]*=* — judged by [shape_wf] / [shape_declen] (length % 4 = 0, padding only at the
+   very end, decoded length = size=)."""
 from __future__ import annotations
 
 import json
@@ -33,7 +51,7 @@ LEVEL = "proof"
 EXTRA_TARGETS = ["model/KittyChunksTie.vo"]
 
 HEADER = ("From Coq Require Import String.\nFrom Coq Require Import List ZArith Bool.\nImport ListNotations.\n"
-          "From TI Require Import gen.Consts model.KittyChunks model.KittyChunksTie.\n"
+          "From TI Require Import gen.Consts model.KittyChunks model.GfxFrames model.KittyChunksTie.\n"
           "Local Open Scope string_scope.\nLocal Open Scope nat_scope.\n")
 METHOD = {"lines": "Lines", "whole": "Whole", "anim": "Anim"}
 
@@ -324,6 +342,150 @@ def env_change_cases(rng, quick):
     return cs
 
 
+# ---- histories over animated sources (which frame is transmitted)
+
+HISTORIES = [
+    # (pre, ops) — "render" entries are the judged renders
+    (0, [["iter", 2], ["render"], ["seek", 0], ["render"]]),          # iterator closed early, back to frame 0
+    (0, [["pilseek", 3], ["render"]]),                                 # the owner left the PIL image elsewhere
+    (0, [["render"], ["seek", 2], ["render"], ["pilseek", 1], ["render"], ["seek", 0], ["render"],
+         ["iter", 99], ["render"]]),                                   # ... and an exhausted iterator
+    (2, [["render"], ["seek", 0], ["render"]]),                        # wrapped while on frame 2
+    (0, [["native"], ["render"], ["seek", 0], ["render"]]),            # iterm2 native re-encoding moves it
+    (0, [["seek", 3], ["render"], ["iter", 0], ["render"], ["pilseek", 2], ["render"]]),
+]
+
+
+def anim_new_src(rng):
+    r = rng.random()
+    # (no APNG here: Pillow 11.1 itself fails on seek(2); load(); seek(1) of an APNG —
+    # "APNG contains frame sequence errors" — so a backward seek is not available to anyone)
+    if r < 0.6:
+        return new_src(rng, "P", rng.randint(4, 14), rng.randint(4, 14), fmt="GIF", frames=rng.randint(4, 6), style=0)
+    return new_src(rng, rng.choice(["RGB", "RGBA"]), rng.randint(4, 14), rng.randint(4, 14), fmt="WEBP",
+                   frames=rng.randint(4, 5), style=0)
+
+
+def hist_case(rng, style, method, source, pre, ops, via=None):
+    via = via or rng.choice(["format", "format", "str", "renderer", "setmethod"])
+    rw, rh = rng.randint(1, 4), rng.randint(1, 3)
+    c = gfx(style, rng, method=method, size=[rw, rh], cell=[rng.randint(2, 8), rng.randint(2, 12)], via=via,
+            src=anim_new_src(rng), source=source, pre=pre, ops=[list(o) for o in ops],
+            term=rng.choice({"kitty": ["kitty", "konsole"], "iterm2": ["iterm2", "wezterm", "konsole"]}[style]))
+    if via == "str":
+        c.update(alpha=[40 / 255], compress=4, set_method=method, override=None)
+    elif via == "setmethod":
+        c.update(via="format", set_method=spell(rng, method), override=None)
+    else:
+        c.update(set_method=rng.choice([None, "lines", "whole"]), override=method)
+        if c["src"]["mode"] == "RGBA":
+            c["alpha"] = rng.choice([None, [0.5], "#"])
+    return c
+
+
+def rand_history(rng, style, nf=6):
+    ops = []
+    for _ in range(rng.randint(2, 7)):
+        r = rng.random()
+        if r < 0.3:
+            ops.append(["seek", rng.choice([0, 0, rng.randrange(nf)])])
+        elif r < 0.5:
+            ops.append(["pilseek", rng.randrange(nf)])
+        elif r < 0.65:
+            ops.append(["iter", rng.choice([0, 1, 2, rng.randrange(nf), 99])])
+        elif r < 0.72 and style == "iterm2":
+            ops.append(["native"])
+        else:
+            ops.append(["render"])
+    return rng.choice([0, 0, 0, rng.randrange(nf)]), ops + [["render"]]
+
+
+def hist_cases(rng, quick):
+    """Every committed history x kitty LINES/WHOLE, iterm2 LINES/WHOLE (PIL-sourced, with and
+    without a file behind the PIL image), each also once file-sourced; then random histories."""
+    cs = []
+    combos = [("kitty", "lines"), ("kitty", "whole"), ("iterm2", "lines"), ("iterm2", "whole")]
+    for k, (pre, ops) in enumerate(HISTORIES):
+        for j, (style, method) in enumerate(combos):
+            if ["native"] in ops and style != "iterm2":
+                continue
+            source = "pil" if ["native"] in ops else ["pil_file", "pil"][(k + j) % 2]
+            cs.append(hist_case(rng, style, method, source, pre, ops,
+                                via=["format", "str", "renderer", "setmethod"][(k + j) % 4]))
+        style, method = combos[k % 4]
+        if ["native"] not in ops:
+            cs.append(hist_case(rng, style, method, "file", 0, ops))
+    for _ in range(24 if quick else 700):
+        style, method = rng.choice(combos)
+        pre, ops = rand_history(rng, style)
+        cs.append(hist_case(rng, style, method, rng.choice(["pil_file", "pil_file", "pil", "file"]), pre, ops))
+    return cs
+
+
+# ---- payload size (the payload of one command as ONE base64 text, whatever its size)
+
+K16, K18x3, K20, K21 = 1 << 16, 3 << 18, 1 << 20, 1 << 21
+
+
+def large_cases(rng, quick):
+    cs = []
+
+    def it2(**kw):
+        c = gfx("iterm2", rng, size=[3, 2], cell=[5, 7], term=rng.choice(["iterm2", "wezterm", "konsole"]))
+        c.update(kw)
+        return c
+
+    # iterm2 WHOLE, read-from-file: PNG files of EXACTLY N bytes around powers of two / 3 * 2^18
+    sizes = [K16 - 1, K16, K16 + 1, K18x3 - 1, K18x3, K18x3 + 1, K20 - 1, K20, K20 + 1, K21 + 5]
+    if not quick:
+        sizes += [(1 << 17) + 1, (1 << 18) - 1, (1 << 18) + 2, (1 << 19) - 1, (1 << 19) + 1, (3 << 19) + 1, K21 - 1, K21,
+                  K21 + 1, (3 << 20) + 2, (1 << 22) + 3] + [rng.randint(K16, 3 * K20) for _ in range(6)]
+    for n in sizes:
+        src = new_src(rng, rng.choice(["RGB", "L"]), rng.randint(2, 6), rng.randint(2, 4), fmt="PNG", style=0)
+        src["file_size"] = n
+        cs.append(it2(method="whole", src=src, source=rng.choice(["file", "file", "pil_file"]), rff=True))
+    # iterm2 native animation of an APNG file of exactly N bytes, and of a ~1.9 MB GIF of noise
+    for n in [K20 - 1, K20, K20 + 1] + ([] if quick else [K16 + 1, K18x3 + 1, K21 + 7]):
+        src = new_src(rng, "RGB", 6, 4, fmt="PNG", frames=3, style=0)
+        src["file_size"] = n
+        cs.append(it2(method="anim", src=src, source=rng.choice(["file", "pil_file"])))
+    gif = new_src(rng, "L", 420, 420, fmt="GIF", frames=8, style=0)
+    cs.append(it2(method="anim", src=gif, source="file", size=[10, 5]))
+    if not quick:
+        cs.append(it2(method="anim", src=dict(gif), source="pil", size=[10, 5]))     # re-encoded by Pillow
+        cs.append(it2(method="anim", src=dict(gif), source="pil_file", size=[10, 5]))
+    # iterm2 WHOLE / LINES re-encoded: PNGs of incompressible noise above 1 and 2 MiB
+    big = [("RGB", 600, 590, [8, 5], [75, 118], "whole"), ("RGB", 840, 840, [7, 4], [120, 210], "whole"),
+           ("RGB", 600, 590, [8, 1], [75, 590], "lines")]
+    if not quick:
+        big += [("RGBA", 520, 520, [4, 4], [130, 130], "whole"), ("RGB", 600, 1180, [8, 2], [75, 590], "lines"),
+                ("RGB", 700, 500, [7, 5], [100, 100], "whole")]
+    for mode, w, h, size, cell, method in big:
+        cs.append(it2(method=method, src=new_src(rng, mode, w, h, style=0), source="pil", size=size, cell=cell,
+                      alpha=[0.5] if mode == "RGBA" else None, compress=rng.choice([0, 1, 4])))
+    # kitty WHOLE (and LINES with one-line strips) above 1 MiB: hundreds of chunks
+    kbig = [("RGB", 600, 590, [8, 5], [75, 118], "whole", 0)]
+    if not quick:
+        kbig += [("RGBA", 520, 520, [4, 4], [130, 130], "whole", 3), ("RGB", 600, 590, [8, 1], [75, 590], "lines", 0),
+                 ("RGB", 840, 840, [7, 4], [120, 210], "whole", 1)]
+    for mode, w, h, size, cell, method, level in kbig:
+        cs.append(gfx("kitty", rng, method=method, src=new_src(rng, mode, w, h, style=0), source="pil", size=size, cell=cell,
+                      alpha=[0.5] if mode == "RGBA" else None, compress=level))
+    for c in cs:
+        c["large"] = True
+    return cs
+
+
+def spread(cases, extra):
+    """`extra` inserted at evenly spaced positions (the implementation runs contiguous slices of
+    the case list in parallel processes: the expensive cases should not share one)"""
+    out = list(cases)
+    step = max(1, len(out) // (len(extra) + 1))
+    for k, c in enumerate(extra):
+        out.insert(min(len(out), (k + 1) * step + k), c)
+    return out
+
+
 def unit_cases(rng, quick):
     """Transmission.get_chunks: payload lengths whose base64 length sweeps every multiple
     of the chunk size (k = 0..3) by -4, 0, +4, plus arbitrary chunk sizes."""
@@ -426,28 +588,50 @@ def reads_term(r):
     return core.coq_list(r["reads_in"], lambda p: f"({Z(p[0])}, {Z(p[1])})")
 
 
+FOP = {"seek": "FSeek %d", "foreign": "FForeign %d", "iter": "FIter %d", "iterfull": "FIterFull", "render": "FRender"}
+
+
+def fop_term(o):
+    return FOP[o[0]] % tuple(o[1:]) if len(o) > 1 else FOP[o[0]]
+
+
+def shape_term(b):
+    return "{| b_len := %s; b_pad := %s; b_alpha := %s |}" % (Z(b[0]), Z(b[1]), "true" if b[2] else "false")
+
+
+def frec_term(r):
+    f = r["fr"]
+    sent = f"(Some {f['sent']})" if f["sent"] >= 0 else "None"
+    pilpos = f"(Some {f['pilpos']})" if f["pilpos"] >= 0 else "None"
+    return ("{| f_pil := %s; f_init := %d; f_hist := %s; f_tell := %d; f_sent := %s; f_pilpos := %s |}" % (
+        b(f["pil"]), f["init"], core.coq_list(f["hist"], lambda o: "(" + fop_term(o) + ")" if len(o) > 1 else fop_term(o)),
+        f["tell"], sent, pilpos))
+
+
 def kitty_term(c, r):
     setm, over = set_over(c)
     return ("{| kc_set := %s; kc_over := %s; kc_reads := %s; kc_other_reads := %d; kc_rw := %s; kc_rh := %s; kc_cw := %s; kc_ch := %s; kc_ow := %s; kc_oh := %s; "
             "kc_alpha := %d; kc_opaque := %s; kc_z := %s; kc_level := %d; kc_blend := %s; kc_items := %s; "
-            "kc_rawlen := %s; kc_pix := %s; kc_lex := %s; kc_fill := %s; kc_keep := %s |}" % (
+            "kc_rawlen := %s; kc_pix := %s; kc_lex := %s; kc_fill := %s; kc_keep := %s; kc_b64 := %s; kc_fr := %s |}" % (
                 mopt(setm), mopt(over), reads_term(r), r["other_in"],
                 Z(r["rsize"][0]), Z(r["rsize"][1]), Z(c["cell"][0]), Z(c["cell"][1]),
                 Z(r["orig"][0]), Z(r["orig"][1]), alpha_code(c["alpha"]), b(r["mode_class"] == 0), Z(c["z"]),
                 c["compress"], b(c["blend"]), core.coq_list(r["items"], item_term), zlist(r["rawlen"]),
-                b(r["pix"]), b(r["lex_ok"]), b(r["fill_ok"]), b(r["size_kept"])))
+                b(r["pix"]), b(r["lex_ok"]), b(r["fill_ok"]), b(r["size_kept"]),
+                core.coq_list(r["b64"], shape_term), frec_term(r)))
 
 
 def unit_term(c, r):
     return ("{| u_size := %s; u_default := %s; u_level := %d; u_len := %s; u_items := %s; u_rawok := %s; "
-            "u_lex := %s |}" % (Z(c["csize"] or 0), b(c["csize"] is None), c["level"], Z(c["len"]),
-                                core.coq_list(r["items"], item_term),
-                                b(r["raw_ok"] and r["joined_eq"] and r["n_yield"] == len(r["items"])), b(r["lex_ok"])))
+            "u_lex := %s; u_b64 := %s |}" % (Z(c["csize"] or 0), b(c["csize"] is None), c["level"], Z(c["len"]),
+                                             core.coq_list(r["items"], item_term),
+                                             b(r["raw_ok"] and r["joined_eq"] and r["n_yield"] == len(r["items"])),
+                                             b(r["lex_ok"]), shape_term(r["b64"])))
 
 
 def orec_term(o):
-    return ("{| o_hdr := %s; o_keys := %s; o_declen := %s; o_kind := %d; o_w := %s; o_h := %s; o_rgba := %s |}" % (
-        cstr(o["hdr"]), zlist(o["keys"]), Z(o["declen"]), o["kind"], Z(o["w"]), Z(o["h"]), b(o["rgba"])))
+    return ("{| o_hdr := %s; o_keys := %s; o_declen := %s; o_kind := %d; o_w := %s; o_h := %s; o_rgba := %s; o_b64 := %s |}" % (
+        cstr(o["hdr"]), zlist(o["keys"]), Z(o["declen"]), o["kind"], Z(o["w"]), Z(o["h"]), b(o["rgba"]), shape_term(o["b64"])))
 
 
 def iterm2_term(c, r):
@@ -457,13 +641,13 @@ def iterm2_term(c, r):
     return ("{| ic_set := %s; ic_over := %s; ic_reads := %s; ic_other_reads := %d; ic_rw := %s; ic_rh := %s; ic_cw := %s; ic_ch := %s; ic_ow := %s; ic_oh := %s; "
             "ic_alpha := %d; ic_mode_class := %d; ic_animated := %s; ic_readable := %s; ic_rff := %s; ic_jq := %s; "
             "ic_konsole := %s; ic_oscs := %s; ic_untouched := %s; ic_pix := %s; ic_lex := %s; ic_nl := %d; "
-            "ic_keep := %s |}" % (
+            "ic_keep := %s; ic_fr := %s |}" % (
                 mopt(setm), mopt(over), reads_term(r), r["other_in"],
                 Z(r["rsize"][0]), Z(r["rsize"][1]), Z(c["cell"][0]), Z(c["cell"][1]),
                 Z(r["orig"][0]), Z(r["orig"][1]), alpha_code(c["alpha"]), r["mode_class"], b(r["animated"]),
                 b(r["readable"]), b(True if rff is None else rff), Z(-1 if jq is None else jq),
                 b(c.get("term") == "konsole"), core.coq_list(r["oscs"], orec_term), b(r["untouched"]),
-                b(r["pix"]), b(r["lex_ok"]), r["n_nl"], b(r["size_kept"])))
+                b(r["pix"]), b(r["lex_ok"]), r["n_nl"], b(r["size_kept"]), frec_term(r)))
 
 
 # ------------------------------------------------------------------ evaluate
@@ -482,6 +666,11 @@ def evaluate(cases, tag="c03"):
         if "each" in r:
             for at, rr in r["each"]:
                 cases.append({**c, "envchg": {**c["envchg"], "at": at}})
+                impl.append(rr)
+        elif "renders" in r:
+            # a history: every render of it is one judged case (= the history up to that render)
+            for at, rr in r["renders"]:
+                cases.append({**c, "ops": c["ops"][:at + 1], "last_only": True})
                 impl.append(rr)
         else:
             cases.append(c)
@@ -533,6 +722,18 @@ def simpler(case):
         if case.get("noise", True):
             out.append({**case, "noise": False})
         return out
+    if case.get("ops"):
+        ops = case["ops"]
+        if len(ops) > 1:
+            for k in range(len(ops) - 1):  # the last op is the failing render
+                out.append({**case, "ops": ops[:k] + ops[k + 1:]})
+        if case.get("pre"):
+            out.append({**case, "pre": 0})
+    if (case.get("src") or {}).get("file_size"):
+        n = case["src"]["file_size"]
+        for m in (n // 2, 3 * n // 4, n - 1):
+            if 4096 <= m < n:
+                out.append({**case, "src": {**case["src"], "file_size": m}})
     if case.get("envchg"):
         out.append({**case, "envchg": None})
         chg = case["envchg"]
@@ -596,9 +797,14 @@ def describe(c):
         return f"Transmission.get_chunks({'default' if c['csize'] is None else c['csize']}) payload={c['len']}B level={c['level']}"
     s = c["src"]
     src = s.get("name") or f"{s['mode']} {s['w']}x{s['h']} {s.get('fmt') or 'in-memory'}" + (f" x{s['frames']}f" if s.get("frames", 1) > 1 else "")
+    if s.get("file_size"):
+        src += f" file of exactly {s['file_size']} bytes"
     extra = f" z={c['z']} blend={int(c['blend'])}" if c["style"] == "kitty" else f" jq={c.get('jq')} rff={c.get('rff')}"
     setm, over = set_over(c)
     extra += f" set_render_method({c.get('set_method', setm)!r}{' on the class' if c.get('set_level') == 'class' else ''}) override={over!r}"
+    if c.get("ops"):
+        extra += (f" HISTORY (PIL image on frame {c.get('pre', 0)} when wrapped): "
+                  + ", ".join(o[0] + (f"({o[1]})" if len(o) > 1 else "") for o in c["ops"]) + " <- this render")
     if c.get("envchg"):
         g = c["envchg"]
         if g.get("at") is None:
@@ -614,11 +820,13 @@ def describe(c):
 def signature(c):
     keep = {k: c.get(k) for k in ("unit", "len", "level", "csize", "style", "method", "size", "cell", "alpha",
                                    "compress", "source", "jq", "rff", "term", "via", "blend", "mix", "z", "seek",
-                                   "set_method", "set_level", "override", "dynamic", "term_size")}
+                                   "set_method", "set_level", "override", "dynamic", "term_size", "ops", "pre")}
     if c.get("envchg"):
         keep["envchg"] = [c["envchg"].get(k) for k in ("at", "cell", "term", "ratio")]
     s = c.get("src") or {}
     keep["src"] = [s.get("kind"), s.get("name"), s.get("mode"), s.get("w"), s.get("h"), s.get("fmt"), s.get("frames")]
+    if s.get("file_size"):
+        keep["file_size"] = s["file_size"]
     return core.sig(keep)
 
 
@@ -636,6 +844,8 @@ def first_ill_formed(items):
 def nontrivial(c, r):
     if "driver_error" in r or r.get("raised"):
         return False
+    if c.get("ops"):  # a history: the shared PIL object is NOT on frame tell when the render starts
+        return r["fr"]["pilpos"] >= 0 and r["fr"]["pilpos"] != r["fr"]["tell"]
     if c.get("unit") or c["style"] == "kitty":
         chunks = [it for it in r.get("items", []) if it[0] == "chunk"]
         multi = any(it[2] == 1 for it in chunks)
@@ -658,6 +868,8 @@ def run(ctx):
         cases += [kitty_anim_case(rng) for _ in range(na)]
         cases += [iterm2_case(rng) for _ in range(ni)]
         cases += [iterm2_case(rng, animated=True) for _ in range(nia)]
+        cases += hist_cases(rng, ctx.quick)
+        cases = spread(cases, large_cases(rng, ctx.quick))
         if not ctx.quick:
             cases.append({"style": "iterm2", "method": "anim", "size": [4, 2], "cell": [6, 12],
                           "src": {"kind": "fixture", "name": "anim.webp"}, "source": "file", "alpha": [0.5],
@@ -669,7 +881,10 @@ def run(ctx):
             "src_mode": {}, "iterm2_untouched": 0, "iterm2_jpeg": 0, "raised": 0,
             "set_method_x_override": {}, "override_differs_from_set_method": 0,
             "environment_change_after_read": {}, "env_change_inside_render_image": 0,
-            "cell_size_reads_inside_render_image": {}, "dynamic_size": 0}
+            "cell_size_reads_inside_render_image": {}, "dynamic_size": 0,
+            "history_renders": 0, "history_source": {}, "history_ops_before_render": {},
+            "history_pil_object_off_the_current_frame": 0, "history_current_frame_0_pil_object_elsewhere": 0,
+            "history_via": {}, "largest_single_payload_bytes_log2": {}, "payload_at_power_of_two_boundary": 0}
 
     def inc(d, k):
         d[str(k)] = d.get(str(k), 0) + 1
@@ -695,6 +910,19 @@ def run(ctx):
             hist["override_differs_from_set_method"] += bool(setm and over and setm != over)
             hist["dynamic_size"] += bool(c.get("dynamic"))
             inc(hist["cell_size_reads_inside_render_image"], len(r.get("reads_in", [])))
+            if c.get("ops") and "fr" in r:
+                f = r["fr"]
+                hist["history_renders"] += 1
+                inc(hist["history_source"], c["source"])
+                inc(hist["history_via"], f"{c['style']}/{c['method']}/{c.get('via')}")
+                inc(hist["history_ops_before_render"], min(len(f["hist"]), 8))
+                off = f["pilpos"] >= 0 and f["pilpos"] != f["tell"]
+                hist["history_pil_object_off_the_current_frame"] += off
+                hist["history_current_frame_0_pil_object_elsewhere"] += bool(off and f["tell"] == 0)
+            biggest = max([o.get("declen", 0) for o in r.get("oscs", [])] + [x * 3 // 4 for x in (b_[0] for b_ in r.get("b64", []) if isinstance(b_, list))] + [0])
+            if biggest >= 1 << 15:
+                inc(hist["largest_single_payload_bytes_log2"], biggest.bit_length() - 1)
+                hist["payload_at_power_of_two_boundary"] += any(abs(biggest - (1 << k)) <= 1 for k in range(15, 24))
             if c.get("envchg"):
                 at = c["envchg"]["at"]
                 inc(hist["environment_change_after_read"], at)
@@ -737,10 +965,11 @@ def run(ctx):
                 k2, _, impl2, _ = evaluate([small], tag="c03r")
                 r2 = impl2[0]
             obs = {k: r2.get(k) for k in ("raised", "raised_msg", "pix", "lex_ok", "rawlen", "rsize", "untouched", "size_kept",
-                                          "pix_error", "reads", "reads_in")}
+                                          "pix_error", "reads", "reads_in", "fr", "b64")}
             first_bad = first_ill_formed(r2.get("items", []))
             if r2.get("oscs"):
-                obs["oscs(size=,decoded,kind,w,h)"] = [[o["keys"][0], o["declen"], o["kind"], o["w"], o["h"]] for o in r2["oscs"][:4]]
+                obs["oscs(size=,decoded,kind,w,h,[b64 length, chars from first '=' to end, alphabet*=*])"] = [
+                    [o["keys"][0], o["declen"], o["kind"], o["w"], o["h"], o.get("b64")] for o in r2["oscs"][:4]]
             failures.append({
                 "signature": signature(small),
                 "what": f"render does not satisfy the framing/pixel specification (code {k2[0]}): {describe(small)}; observed {json.dumps(obs)}"
@@ -770,17 +999,31 @@ def run(ctx):
                 "smaller / larger / narrower, with another terminal size and cell ratio) after the n-th environment "
                 "read, for every n below the number of reads of that render, fixed and dynamic sizes, kitty and "
                 "iterm2, LINES and WHOLE (iterm2 WHOLE from a readable file whose area lies between the two render "
-                "areas, so that the gate's second read decides).  Non-trivial: some "
+                "areas, so that the gate's second read decides) + HISTORIES over animated GIF / WEBP sources "
+                "(PIL image with a file, PIL image decoded from bytes, file): image.seek(n), pil.seek(k) by the owner, "
+                "ImageIterators closed after k+1 frames or exhausted, iterm2 native-animation renders, the PIL image on any "
+                "frame when wrapped; six committed histories x kitty LINES/WHOLE, iterm2 LINES/WHOLE x str / format / "
+                "_renderer / set_render_method, each also file-sourced, plus random histories; every render of a history "
+                "is one judged case (expected pixels: frame image.tell() of a fresh copy of the source) + LARGE payloads: "
+                "iterm2 WHOLE read-from-file of PNG files of exactly 2^16, 3*2^18, 2^20 -1/+0/+1 and 2^21+5 bytes, native "
+                "animation of APNG files of exactly 2^20 -1/+0/+1 bytes and of a 1.9 MB GIF, re-encoded noise PNGs above 1 and "
+                "2 MiB (WHOLE, one-line LINES), kitty WHOLE above 1 MiB (thorough: more sizes, random sizes up to 3 MiB, "
+                "native animation re-encoded from a PIL image).  Non-trivial: some "
                 "transmission has >= 2 chunks or an exact multiple of 4096, or LINES with >= 2 lines, or an iterm2 "
-                "case with several lines / WHOLE / ANIM; distinct by case hash.",
-        "samples": [describe(c) for c in (cases[:1] + cases[130:133] + cases[-2:])],
+                "case with several lines / WHOLE / ANIM; a history render counts only if the shared PIL object is NOT on "
+                "frame image.tell() when the render starts; distinct by case hash.",
+        "samples": [describe(c) for c in (cases[:1] + cases[130:133] + [c for c in cases if c.get("ops")][-2:]
+                                          + [c for c in cases if c.get("large")][8:10] + cases[-1:])],
         "histogram": hist,
         "mismatches": mismatches,
         "failures": failures,
         "errors": errors,
         "assumptions": [
-            "base64: unb64 (b64 x) = x and length (b64 x) mod 4 = 0; zlib: unzl (zl l x) = x (hypotheses of the theorems; "
-            "validated on every case by decoding the real output with Python's base64/zlib)",
+            "base64: unb64 (b64 x) = x and b64_wf (b64 x) (length a multiple of 4, padding only at the very end); zlib: "
+            "unzl (zl l x) = x (hypotheses of the theorems; satisfiable by RFC 4648 — proved; validated on every case by "
+            "measuring the shape of the real payload as one text and decoding it strictly with Python's base64/zlib)",
+            "frame k of a source = what Pillow gives after seek(k) on a fresh copy; a PIL-sourced instance and its renders / "
+            "iterators share the one PIL object with its owner, a file-sourced one opens the file for every render",
             "pixel equality of the decoded payload with the source is Pillow's convert/resize(BOX)/alpha_composite/PNG "
             "round trip — observed at run time against a fresh copy of the source, not proved; JPEG output is compared by "
             "format, mode and size only",
